@@ -285,6 +285,12 @@ func c19Gen(r *rand.Rand, tier string) []Case {
 		ops := []sx.S{"hist"}
 		uid := 0
 		npat := 1 + r.Intn(3)
+		if i%2 == 0 { // registry-heavy histories: several live subscribers before anything else happens
+			for k := 3 + r.Intn(4); k > 0; k-- {
+				uid++
+				ops = append(ops, sx.L("sub", c19Sub(r, uid, npat)))
+			}
+		}
 		for j := 0; j < ln; j++ {
 			switch x := r.Intn(10); {
 			case x < 4:
